@@ -612,12 +612,10 @@ Inductive represent (n : nat) : list ipair -> list ipair -> Prop :=
     (forall o, lin Uinv (lin U o) = o) -> (forall o, lin U (lin Uinv o) = o) ->
     represent n E (map (fun e => let '(i, j, o) := e in (i, j, lin U o)) E).
 
-(* NOT PROVED in full (tested on every generated pair by [same_spec]): the specification does not depend on
-   the presentation.  Proved (DimensionalityInvariance.v, with [mirror_eq_spec2] / [spec_r2_of_mirror] below):
-   the None answer and the GF(2) rank are invariant under lattice shifts, re-numbering of atoms and change of
-   basis.  Missing: the same for the integer rank -- a theory of [rankZ] (that the fraction-free elimination
-   computes the rank of the generated lattice, independent of the spanning tree chosen by [relax] and of the
-   order of the pairs) -- and supercells (different n; only meaningful when the supercell stays connected). *)
+(* PROVED in Geometry/InvarianceFull.v ([C09_invariance_full_statement_holds]; it needs the later files RankDet.v, RankElim.v,
+   VoltageLattice.v, which is why the statement stays a Definition here): the specification does not depend on the presentation.
+   Still tested on every generated pair by [same_spec].  Supercells (different n; only meaningful when the supercell stays
+   connected) are not part of this statement and are covered by tests only. *)
 Definition C09_invariance_full_statement : Prop :=
   forall n p E E', wf_E n p E = true -> wf_E n p E' = true -> (0 < n)%nat ->
     represent n E E' -> dim_spec n p E = dim_spec n p E'.
